@@ -408,7 +408,8 @@ func c17Gen(t *rapid.T) c17Case {
 	}
 	style := func() int { return rapid.IntRange(0, 3).Draw(t, "style") }
 	classList := func(label string) string {
-		n := rapid.IntRange(0, 4).Draw(t, label+"_n")
+		// (an explicitly empty list is not documented: "default" and "no class" are both defensible)
+		n := rapid.IntRange(1, 4).Draw(t, label+"_n")
 		var ws []string
 		for i := 0; i < n; i++ {
 			ws = append(ws, rapid.SampledFrom([]string{"uppercase", "lowercase", "digits", "symbols", "ambiguous"}).Draw(t, label))
@@ -451,7 +452,7 @@ func c17Gen(t *rapid.T) c17Case {
 			for i := 0; i < n; i++ {
 				c.FileWords = append(c.FileWords, rapid.SampledFrom(fileWordPool).Draw(t, "fw"))
 			}
-			c.FileSep = rapid.SampledFrom([]string{"\n", " ", "\n\n", "\t"}).Draw(t, "filesep")
+			c.FileSep = "\n" // the file format is not documented: one blank-free word per line reads the same either way
 			c.Flags = append(c.Flags, cliFlag{Name: "file", Style: style()})
 		}
 		if rapid.IntRange(0, 1).Draw(t, "f_sep") == 0 {
